@@ -15,9 +15,15 @@ def gen_cases(chk):
     quick = chk.tier == "quick"
     cases = []
     for i in range(200 if quick else 2000):
+        # (round 4) a third of the traces also reconfigure the calibrator between the cuts (set_samplers / set_scheduler: a new
+        # scheduler starts its cursor at 0 whatever the batch index is), a quarter carry a convergence precision (0 included):
+        # restore followed by reconfiguration, early stop followed by further calls, calibrate(0) after a restore
+        reconf, with_prec = i % 3 == 1, i % 4 == 2
         c = cc.gen_case(rng, len(cases), max_ops=9 if quick else 14, max_samplers=4,
-                        allow=("calibrate", "checkpoint", "restore", "restore"), prec_prob=10**9, nmax=3)
-        c["cfg"]["prec"] = None
+                        allow=("calibrate", "checkpoint", "restore", "restore") + (("set_samplers", "set_scheduler") if reconf else ()),
+                        prec_prob=2 if with_prec else 10**9, nmax=3)
+        if not with_prec:
+            c["cfg"]["prec"] = None
         c["cfg"]["saving"] = bool(rng.below(3))
         cases.append(c)
     return cases
@@ -229,6 +235,227 @@ def nan_runs(chk, stats):
     return count
 
 
+# ---------------------------------------------------------------------------------------------- round 4: generator sweep
+def restore_transparency(chk, stats):
+    """Token components, ANY operation sequence (calibrate n incl. 0, set_samplers, set_scheduler, create_checkpoint; with and
+    without a convergence precision, with and without a saving folder): inserting create_checkpoint + restore at any position
+    - before the first batch included - changes nothing: every later call raises / returns the same and leaves the same
+    history (theorem C05_resume_any_ops / _outcomes)."""
+    rng = chk.rng
+    quick = chk.tier == "quick"
+    count = tries = done = 0
+    want = 12 if quick else 80
+    while done < want and tries < 10 * want:
+        tries += 1
+        base = cc.gen_case(rng, 0, max_ops=5, max_samplers=3, bs_max=2, e_max=2,
+                           allow=("calibrate", "set_samplers", "set_scheduler", "checkpoint", "calibrate"), prec_prob=2, nmax=3)
+        if base["cfg"]["prec"] is not None:
+            base["cfg"]["prec"] = rng.choice([0, 0, 1, 2, base["cfg"]["prec"]])
+            base["palette"] = cc.gen_palette(rng, base["cfg"]["prec"]) + [5.0, 3.0]
+        if tries % 2:
+            # every other base: batches, then a reconfiguration with >= 2 samplers in the middle of the run (a new scheduler's
+            # cursor starts at 0 whatever the batch index is; set_samplers keeps the cursor), then more calls, calibrate(0) included
+            # (three of four: a new scheduler, after a number of batches that is not a multiple of its number of samplers, so that
+            # a cursor derived from the batch index would point at another sampler)
+            a = rng.randint(1, 3)
+            nsmp = {1: rng.randint(2, 3), 2: 3, 3: 2}[a]
+            rec = ["set_scheduler" if rng.below(4) else "set_samplers", cc.gen_samplers(rng, nsmp, 10, 2)]
+            base["ops"] = [["calibrate", a], rec, ["calibrate", rng.randint(1, 3)]] + \
+                          ([["calibrate", 0]] if rng.below(2) else []) + [["calibrate", rng.randint(1, 2)]]
+        tv = cc.run_case(base)["views"]
+        if any(v["exn"] for v in tv) or tv[-1]["batchidx"] < 2:
+            continue
+        done += 1
+        ops = base["ops"]
+        stats["transparency:bases"] += 1
+        if any(o[0] in ("set_samplers", "set_scheduler") for o in ops):
+            stats["transparency:bases-with-reconfiguration"] += 1
+        if base["cfg"]["prec"] is not None and any(o[0] == "calibrate" and v["batchidx"] - (tv[i - 1]["batchidx"] if i else 0) < o[1]
+                                                   for i, (o, v) in enumerate(zip(ops, tv))):
+            stats["transparency:bases-with-early-stop"] += 1
+        for pos in range(len(ops) + 1):
+            c = dict(base, ops=ops[:pos] + [["checkpoint"], ["restore"]] + ops[pos:])
+            v = cc.run_case(c)["views"]
+            count += 1
+            stats["transparency:insertions"] += 1
+            rest = v[:pos] + v[pos + 2:]
+            bad = [k for k, (a, b) in enumerate(zip(rest, tv))
+                   if not (cf.same_history(a, b) and a["exn"] == b["exn"] and a["returned"] == b["returned"])]
+            if v[pos]["exn"] or v[pos + 1]["exn"] or bad:
+                k = bad[0] if bad else pos
+                chk.violation({"kind": "oracle", "clause": "token-resume-differs", "with": "any-operation-sequence"},
+                              {"failed": "oracle:resume", "detail": f"operations {ops} (precision {base['cfg']['prec']}, saving {base['cfg']['saving']}): "
+                               f"create_checkpoint + restore inserted before operation {pos}: checkpoint -> {v[pos]['exc']}, restore -> "
+                               f"{v[pos + 1]['exc']}; first differing operation {k}: "
+                               f"{cf.diff_history(rest[k], tv[k]) if bad else ''} exn {rest[k]['exc'] if bad else ''}", "case": c})
+    return count
+
+
+def _hook_args_repr(args, spec):
+    """the same configuration in another representation (arrays for the bounds and precisions, a read-only Fortran-ordered
+    array for the real data; numpy integers are left out: the json writer of the checkpoint only takes Python numbers, which
+    is what the signature of Calibrator declares)"""
+    import numpy as np
+
+    a = dict(args)
+    a["parameters_bounds"] = np.asfortranarray(np.array(args["parameters_bounds"], dtype=float))
+    a["parameters_precision"] = np.array(args["parameters_precision"], dtype=float)
+    # a Fortran-ordered read-only array - what DataFrame.to_numpy() returns - except for LikelihoodLoss, whose value depends
+    # on the memory layout of the real data in the last bits: that input is the known finding `likelihood-real-data-layout`,
+    # generated on its own below (scenario real-data-memory-layout) so that it cannot mask anything else
+    rd = np.array(args["real_data"]) if spec["loss"] == "likelihood" and not spec.get("force_f_order") else np.asfortranarray(np.array(args["real_data"]))
+    rd.setflags(write=False)
+    a["real_data"] = rd
+    return a
+
+
+def _hook_cal_assign(cal, spec):
+    """public attributes assigned after construction: the convergence precision of the calibrator and, on the sampler objects,
+    batch size, de-duplication passes and the best-batch options - the values in force are the assigned ones, also after a
+    restore"""
+    if "assign_prec" in spec:
+        cal.convergence_precision = spec["assign_prec"]
+    if spec.get("assign_samplers"):
+        for smp in cal.scheduler.samplers:
+            smp.batch_size = smp.batch_size + 1
+            if type(smp).__name__ not in ("ParticleSwarmSampler", "CORSSampler"):
+                smp.max_deduplication_passes = 1
+            if type(smp).__name__ == "BestBatchSampler":
+                smp.a, smp.b, smp.perturbation_range = 1.25, 2.5, 3
+
+
+rl.HOOKS.update({"c05:repr": _hook_args_repr, "c05:assign": _hook_cal_assign})
+
+
+def resume_case(chk, stats, scen, spec, segments, boundaries, kw=None, twin_kw=None, lead=False, twin=None):
+    """One stop/resume run against its uninterrupted twin; an exception in the resumed run is a difference as well."""
+    kw, twin_kw = dict(kw or {}), dict(twin_kw if twin_kw is not None else (kw or {}))
+    twin_kw.pop("n_jobs", None), twin_kw.pop("verbose", None)
+    if twin is None:
+        twin = rl.run_segments(spec, [sum(segments)], [], folder=None, **twin_kw)
+    folder = rl.scratch(f"c05_sweep_{scen.replace(':', '_')}")
+    try:
+        h = rl.run_segments(spec, segments, list(boundaries), folder=str(folder), lead_restore=lead, **kw)
+        d = rl.diff(twin, h)
+        what = f"differs in {d} (shapes {h['shape']} vs {twin['shape']})"
+    except Exception as e:  # noqa: BLE001
+        d = ["raises"]
+        what = f"raises {type(e).__name__}: {e}"
+    finally:
+        shutil.rmtree(folder, ignore_errors=True)
+    stats[f"sweep:{scen}"] += 1
+    if d:
+        chk.violation({"kind": "oracle", "clause": "real-resume-differs", "boundary": "restore" if (any(x != "plain" for x in boundaries) or lead) else "plain",
+                       "with": scen},
+                      {"failed": "oracle:resume", "detail": f"[{scen}] line-up {spec['kinds']} loss {spec['loss']} segments {segments} boundaries "
+                       f"{list(boundaries)}{' (restored before the first batch)' if lead else ''} {kw}: {what}",
+                       "case": {"spec": spec, "segments": segments, "boundaries": list(boundaries), "kw": kw, "twin_kw": twin_kw, "lead": lead}})
+    return twin
+
+
+def rand_cut(rng, n):
+    """a composition of n into >= 2 segments with at least one restore boundary"""
+    comps = [c for c in rl.compositions(n) if len(c) >= 2]
+    comp = rng.choice(comps)
+    b = [rng.choice(["plain", "restore", "restore_auto"]) for _ in comp[:-1]]
+    b[rng.below(len(b))] = rng.choice(["restore", "restore_auto"])
+    return comp, b
+
+
+def real_sweep(chk, stats):
+    """Round 4: configurations, representations, reassigned attributes and cut patterns the earlier real runs did not reach."""
+    rng = chk.rng
+    quick = chk.tier == "quick"
+    count = 0
+    for rep in range(1 if quick else 4):
+        def lineup(k=None, pool=None):
+            pool = pool or (rl.CHEAP if quick else rl.ALL9)
+            k = k or rng.randint(2, 3)
+            kinds = [(rng.choice(pool), rng.randint(1, 3)) for _ in range(k)]
+            kinds[0] = (rng.choice(["halton", "rseq", "uniform"]), max(3, max(b for _, b in kinds)))
+            return kinds
+
+        def mk(**kw):
+            return dict({"kinds": lineup(), "nparams": rng.randint(1, 3), "E": rng.randint(1, 2), "seed": rng.below(2**31),
+                         "loss": rng.choice(["minkowski", "msm", "fourier", "gsl", "likelihood"]), "rl": False}, **kw)
+
+        # 1. simulation length other than the data length (the checkpoint stores N); the two losses the compositions never drew
+        for loss in ("msm", "gsl", "likelihood"):
+            comp, b = rand_cut(rng, 4)
+            resume_case(chk, stats, "sim-length", mk(sim_length=rng.choice([17, 30]), loss=loss), comp, b)
+            count += 1
+        # 2. non-default options of every sampler class and of the loss: lost by anything that re-creates an object from its class
+        for kind in rl.ALL9:
+            spec = {"kinds": [("uniform", 3), (kind, 2)], "nparams": 2, "E": 1, "seed": rng.below(2**31),
+                    "loss": rng.choice(["minkowski", "msm", "fourier", "gsl", "likelihood"]), "rl": False, "sampler_opts": "nondefault",
+                    "loss_variant": "nondefault", "bounds": [[0.0, 0.1], [1.0, 1.1]]}
+            twin = None
+            for cut in ((1, 2, 3) if not quick or kind in ("pso", "cors", "bestbatch") else (2, 3)):
+                twin = resume_case(chk, stats, f"non-default-options:{kind}", spec, [cut, 5 - cut], ["restore" if cut % 2 else "restore_auto"],
+                                   twin=twin)
+                count += 1
+        # 3. the same configuration in another representation
+        comp, b = rand_cut(rng, 4)
+        resume_case(chk, stats, "representation", mk(loss=rng.choice(["minkowski", "msm", "fourier", "gsl"])), comp, b,
+                    kw=dict(hooks={"args": "c05:repr"}))
+        count += 1
+        # 3b. KNOWN FINDING likelihood-real-data-layout: Fortran-ordered real data (DataFrame.to_numpy()), LikelihoodLoss, ensemble
+        #     of two: the checkpoint gives the real data back C-ordered and the loss of the same series changes in its last bits
+        spec = mk(loss="likelihood", E=2, force_f_order=True, kinds=[("halton", 3), ("uniform", 3), ("bestbatch", 3)])
+        resume_case(chk, stats, "real-data-memory-layout", spec, [2, 4], ["restore"], kw=dict(hooks={"args": "c05:repr"}))
+        count += 1
+        # 4. attributes assigned after construction: sampler options ...
+        spec = mk(kinds=[("halton", 3), ("bestbatch", 2), ("uniform", 1), ("rseq", 2)], assign_samplers=True)
+        for comp, b in ([[2, 3], ["restore"]], [[1, 1, 3], ["restore", "restore"]], [[3, 2], ["restore"]]):
+            resume_case(chk, stats, "assigned-after-construction:samplers", spec, comp, b, kw=dict(hooks={"cal": "c05:assign"}))
+            count += 1
+        # ... and the convergence precision (assigned, or given to the constructor): the uninterrupted calibrate(n) stops after
+        # batch k < n; cut before k, restore, ask for the rest
+        for how in ("assigned", "constructed"):
+            for _try in range(40):
+                p = rng.choice([0, 1, 1, 2])
+                spec = mk(model="small_model", loss="minkowski", nparams=2, **({"assign_prec": p} if how == "assigned" else {"conv_prec": p}))
+                kw = dict(hooks={"cal": "c05:assign"}) if how == "assigned" else {}
+                twin = rl.run_segments(spec, [6], [], folder=None, **kw)
+                k = twin["shape"][3]
+                if 2 <= k < 6:
+                    break
+            else:
+                stats[f"sweep:early-stop:{how}:not-found"] += 1
+                continue
+            for a in range(1, k):
+                resume_case(chk, stats, f"early-stop:{how}", spec, [a, 6 - a], ["restore"], kw=kw, twin=twin)
+                count += 1
+        # 5. values: losses from O(1) to 1e300 (beyond float32, which the XGBoost sampler clips), parameters far from the origin
+        #    relative to their spread (1e6 with steps of 0.01; +-1e8 with steps of 1e6; 1e-9 steps)
+        spec = {"kinds": [("uniform", 3), ("xgb", 2), ("bestbatch", 2), ("pso", 2)], "nparams": 2, "E": 1, "seed": rng.below(2**31),
+                "loss": "minkowski", "rl": False, "model": "wide_model", "bounds": [[0.0, 0.1], [1.0, 1.1]]}
+        for comp, b in ([[2, 4], ["restore"]], [[3, 1, 2], ["restore", "restore"]]):
+            resume_case(chk, stats, "huge-losses", spec, comp, b)
+            count += 1
+        for bounds, prec in (([[1e6, -1e-3], [1e6 + 1, 1e-3]], [0.01, 1e-5]), ([[-1e8, 1e-9], [1e8, 1e-7]], [1e6, 1e-9])):
+            comp, b = rand_cut(rng, 5)
+            resume_case(chk, stats, "far-from-origin", mk(nparams=2, bounds=bounds, precision=prec,
+                                                          kinds=[("halton", 3), ("bestbatch", 2), ("pso", 2), ("rseq", 2)]), comp, b)
+            count += 1
+        # 6. cut patterns: a restore after every batch of a longer run; a restore before the first batch
+        spec = mk(kinds=lineup(3, rl.CHEAP))
+        resume_case(chk, stats, "restore-after-every-batch", spec, [1] * 8, ["restore", "restore_auto"] * 3 + ["restore"])
+        resume_case(chk, stats, "restore-after-every-batch", spec, [1] * 8, ["restore_auto"] * 7)
+        count += 1
+        comp, b = rand_cut(rng, 4)
+        resume_case(chk, stats, "restore-before-first-batch", mk(), comp, b, lead=True)
+        resume_case(chk, stats, "restore-before-first-batch", mk(), [4], [], lead=True)
+        count += 3
+        # 7. an explicitly constructed scheduler (with its own seed); the resumed runs with several workers and verbose
+        comp, b = rand_cut(rng, 4)
+        resume_case(chk, stats, "explicit-scheduler", mk(sched_seed=rng.below(1000)), comp, b)
+        comp, b = rand_cut(rng, 4)
+        resume_case(chk, stats, "resumed-with-workers-and-verbose", mk(), comp, b, kw=dict(n_jobs=2, verbose=True))
+        count += 2
+    return count
+
+
 def run(chk, replay=None):
     from collections import Counter
 
@@ -237,6 +464,15 @@ def run(chk, replay=None):
         case = json.loads(open(replay).read())["case"]
         if "spec" in case:
             folder = rl.scratch("c05_replay")
+            if "twin_kw" in case:          # round-4 cases
+                twin = rl.run_segments(case["spec"], [sum(case["segments"])], [], **case["twin_kw"])
+                try:
+                    d = rl.diff(twin, rl.run_segments(case["spec"], case["segments"], case["boundaries"], folder=str(folder),
+                                                      lead_restore=case.get("lead", False), **case["kw"]))
+                except Exception as e:  # noqa: BLE001
+                    d = [f"raises {type(e).__name__}: {e}"]
+                print("differs in", d)
+                return 1 if d else 0
             twin = rl.run_segments(case["spec"], [sum(case["segments"])], [])
             if case.get("prefilled_folder"):
                 other = {"kinds": [("uniform", 2), ("halton", 1)], "nparams": case["spec"]["nparams"], "E": 1, "seed": 99,
@@ -257,6 +493,8 @@ def run(chk, replay=None):
     n_real += nan_runs(chk, extra) if not replay else 0
     n_tok += crash_resume(chk, extra) if not replay else 0
     n_tok += early_stop_resume(chk, extra) if not replay else 0
+    n_tok += restore_transparency(chk, extra) if not replay else 0
+    n_real += real_sweep(chk, extra) if not replay else 0
     stats.update(extra)
     cov = {
         "evaluations": len(cases) + n_tok + n_real, "distinct": len(keys) + n_tok + n_real,
@@ -265,7 +503,7 @@ def run(chk, replay=None):
                 "composition of n (2..4 quick, 2..6 thorough) with every boundary kind in {second calibrate call, checkpoint+restore} "
                 "against the uninterrupted twin; (c) real built-in samplers (Halton, R-sequence, uniform, best-batch, PSO, CORS, and one "
                 "of RF/XGBoost/GP), real model and losses: sampled compositions x boundary kinds, plus for each of the nine classes X the "
-                "line-up [uniform, X] cut by checkpoint+restore after every batch; histories compared bitwise with the uninterrupted twin; half of the real runs in a folder that already holds the checkpoint of another calibration; (d) token configurations with a convergence precision (0 included) cut before the stopping batch; non-trivial = a restore succeeded / a cut was made",
+                "line-up [uniform, X] cut by checkpoint+restore after every batch; histories compared bitwise with the uninterrupted twin; half of the real runs in a folder that already holds the checkpoint of another calibration; (d) token configurations with a convergence precision (0 included) cut before the stopping batch; (e, round 4) token operation sequences with reconfiguration, calibrate(0) and early stops: create_checkpoint + restore inserted at every position (before the first batch included) changes no later outcome; real runs with a simulation length other than the data length, all five losses, non-default options of every sampler class and loss, arguments in another representation, sampler options and the convergence precision assigned after construction, losses up to 1e300 and parameters at 1e6 / 1e8 with small steps, a restore after every batch of an 8-batch run, a restore before the first batch, an explicit scheduler object, resumed runs with two workers and verbose; non-trivial = a restore succeeded / a cut was made",
         "samples": cf.sample_cases(cases, obs),
         "traces_validated_against_impl": len(cases) - len(bad), "model_impl_disagreements": len(bad),
         "composition_runs_token": n_tok, "composition_runs_real": n_real,
